@@ -131,6 +131,9 @@ func (t *Type) GoBase() reflect.Type {
 	case I32:
 		return reflect.TypeOf(int32(0))
 	case I64:
+		if t.GoNamed != nil {
+			return t.GoNamed // a named int64 type used as plain i64 (annotation "i64" or none)
+		}
 		return reflect.TypeOf(int64(0))
 	case Double:
 		return reflect.TypeOf(float64(0))
@@ -410,9 +413,9 @@ func eqType(a, b *Type, seen map[[2]*Struct]bool, path string) (bool, string) {
 			return false, why
 		}
 		return eqType(a.Elem, b.Elem, seen, path+"[v]")
-	case Enum:
-		if a.GoNamed != b.GoNamed {
-			return false, path + ": enum go types differ"
+	case Enum, I64:
+		if a.GoNamed != b.GoNamed && !(a.K == I64 && a.GoBase() == b.GoBase()) {
+			return false, path + ": named integer go types differ"
 		}
 	}
 	return true, ""
@@ -466,6 +469,10 @@ func (t *Type) describe(seen map[*Struct]bool) string {
 		return "map<" + t.Key.describe(seen) + ":" + t.Elem.describe(seen) + ">"
 	case Enum:
 		return p + "enum(" + t.EnumName + ")"
+	case I64:
+		if t.GoNamed != nil {
+			return p + "i64(go " + t.GoNamed.Name() + ")"
+		}
 	}
 	return p + t.K.String()
 }
@@ -479,6 +486,9 @@ func MapOf(k, v *Type) *Type {
 	return &Type{K: Map, Key: k, Elem: v}
 }
 func StructOf(s *Struct, ptr bool) *Type { return &Type{K: StructK, S: s, Ptr: ptr} }
+// NamedI64 is a named int64-kind Go type used as a plain i64.
+func NamedI64(named reflect.Type) *Type { return &Type{K: I64, GoNamed: named} }
+
 func EnumOf(named reflect.Type) *Type {
 	return &Type{K: Enum, GoNamed: named, EnumName: named.Name()}
 }
